@@ -61,9 +61,23 @@ fn data_case() -> impl Strategy<Value = ExecCase> {
         })
         .prop_flat_map(|((sols, ix), slot, which, below)| {
             let slen = if slot >= 0 { sols[ix].data.get(slot as usize).map(|s| s.len()).unwrap_or(3) } else { 3 };
-            (Just((sols, ix, slot, which, below)), gen::index_like(slen), prop_oneof![gen::index_like(slen), 0i64..3])
+            (Just((sols, ix, slot, which, below)), gen::index_like(slen), prop_oneof![gen::index_like(slen), 0i64..3], proptest::option::weighted(0.2, -1i64..2))
         })
-        .prop_map(|((sols, ix, slot, which, below), v, n)| {
+        .prop_map(|((sols, ix, slot, which, mut below), v, n, fit)| {
+            // the words pushed leave the stack one short of full, exactly full, or one over
+            if let Some(delta) = fit {
+                let pushed = match which {
+                    0 => n.clamp(0, 64),
+                    1 => 1,
+                    _ => 1,
+                };
+                let operands = match which {
+                    0 => 3,
+                    1 => 1,
+                    _ => 0,
+                };
+                below = vec![5; (4096 + delta - pushed).clamp(0, 4096 - operands) as usize];
+            }
             let (op, operands) = match which {
                 0 => (DATA, vec![slot, v, n]),
                 1 => (DLEN, vec![slot]),
